@@ -9,6 +9,7 @@ import PP.Driver.OpsC20
 import PP.Driver.OpsC16
 import PP.Driver.OpsC01
 import PP.Driver.OpsC11
+import PP.Driver.OpsC07
 /-
 Request handlers of the model driver.
 -/
@@ -178,6 +179,9 @@ def handle (j : Json) : Except String Json := do
               | none =>
                 match PP.OpsC11.handle op j with
                 | some r => r
-                | none => throw s!"unknown op {op}"
+                | none =>
+                  match PP.OpsC07.handle op j with
+                  | some r => r
+                  | none => throw s!"unknown op {op}"
 
 end PP.Ops
